@@ -15,3 +15,23 @@ Lemma tie_loader_tags :
   assoc_get kw_ssi tag_impl = Some tagSSIParser /\
   assoc_get [101; 120; 116; 101; 110; 100; 115] (* extends *) tag_impl = Some tagExtendsParser.
 Proof. vm_compute; repeat split; reflexivity. Qed.
+
+(* fix D41, both forms of the include tag in one statement (Props/C11.v) *)
+Lemma tie_if_exists_does_not_hide_errors :
+  (forall se f level args tst g ts fname rest0,
+     match_string args = Some (fname, rest0) ->
+     let iname := resolve_filename (t_isstr tst) (t_name tst) fname in
+     served (se_loaders se) iname = true ->
+     compile_file se f iname g = Err 4 ->
+     tag_parser se (S f) level tagIncludeParser args (tst, g) ts = Err 4) /\
+  (forall se globals f st fr fe pairs only ifx vals st1 fv st2 c fn root rest,
+     top_frame st = Ok fr ->
+     eval_pairs se globals f st pairs = Ok (vals, st1) ->
+     eval se globals f st1 fe = Ok (fv, st2) ->
+     to_string (vv fv) = Some (c :: fn) ->
+     f_chain fr = root :: rest ->
+     let iname := resolve_filename (tpl_is_string root) (tpl_name root) (c :: fn) in
+     served (se_loaders se) iname = true ->
+     compile_file se f iname (ms_g st2) = Err 4 ->
+     exec_node se globals (S f) st (NInclude None (Some fe) pairs only ifx) = ([], Err 4)).
+Proof. split; [exact include_static_served_error|exact include_lazy_served_error]. Qed.
